@@ -454,7 +454,8 @@ def run_concur(prop, tier, seed, model=True):
         for i, (label, areqs) in enumerate(corp):
             races.append({'id': i + 1, 'db0': db0, 'reqs': areqs,
                           'known': concur.race_known_tag(areqs, db0),
-                          'observed': [{'statuses': o['statuses'], 'final': o['final']}
+                          'observed': [{'statuses': o['statuses'], 'final': o['final'],
+                                        'commits': o['commits']}
                                        for o in observed.get(i, [])]})
         ok, st, report, tail = concur.run_tx_model(races)
         if not ok:
